@@ -471,7 +471,7 @@ def finish(tier, seed, ref, jobs, results, families, t0, reported, exit_code, tr
         "alpha-canonical form)",
         "C19 establishes independence, never correctness",
     ]
-    nviol = sum(len(r["violations"]) for _, r, _ in ok)
+    nviol = sum(len(r.get("violations") or []) for r in results if r)
     driver.write_evidence(PROP, tier, seed, coverage, wall, nviol, assumptions)
     log(f"[C19] {len(ok)} runs, {counts.get('req', 0)} requests, "
         f"{sum(fault_kinds.values())} faults fired, {nviol} violation records, "
